@@ -187,6 +187,8 @@ async def run_partition(acc, clock, stream, frames, cuts, garb_regions, cid, sid
             acc.violation(classify("not-active-afterwards"), ep.connection_state.name, w, cid)
             return
         bad = [f for f in E.parse_tap(ep.vf_tap.frames(tap0)) if isinstance(f, Exception) or fixwire.get(f, 35) in ("2", "5", "4")]
+        if ends_at is not None and len(bad) == 1 and not isinstance(bad[0], Exception) and fixwire.get(bad[0], 35) == "5":
+            bad = []        # the Logout that states why the session was ended at the unreadable frame
         if bad:
             acc.violation(classify("resend-or-logout-emitted"), f"{len(bad)} recovery frames on the tap", w, cid)
             return
